@@ -345,6 +345,14 @@ func specC15(c *Case, ps []*Probe) []string {
 	r := ps[1].Impl["R"]
 	rp := ps[1].Impl["RP"]
 	var out []string
+	if c.Aux == "q+fz" && strings.HasPrefix(ps[0].Impl["P"], "ok:") {
+		if strings.HasPrefix(ps[0].Impl["PG"], "ok:") {
+			out = append(out, "ToPostgres succeeded on a query that contains a fuzzy or boost operator")
+		}
+		if strings.HasPrefix(ps[0].Impl["PP"], "ok:") {
+			out = append(out, "ToParameterizedPostgres succeeded on a query that contains a fuzzy or boost operator")
+		}
+	}
 	parts := strings.Split(c.Rel, ":")
 	// with maps made of tracing functions only, nothing but Base itself can panic (the built-in functions are partial
 	// on trees that do not validate: that is C13's subject, not C15's)
@@ -435,7 +443,11 @@ func genRenderCases(rng *gen.Rng, count int, emit func(Case)) {
 		if rng.Chance(1, 4) {
 			df = gen.Pick(rng, gen.DefaultFields)
 		}
-		emit(Case{Gen: "G2-render", Kind: "render", S: gen.Spell(rng, t.Print(), 0), DF: df, Rel: desc, Aux: "q", Idx: i})
+		aux := "q"
+		if t.HasFuzzyBoost() {
+			aux = "q+fz" // the QUERY contains a fuzzy or boost operator, whatever the parser makes of it
+		}
+		emit(Case{Gen: "G2-render", Kind: "render", S: gen.Spell(rng, t.Print(), 0), DF: df, Rel: desc, Aux: aux, Idx: i})
 	}
 }
 
